@@ -234,26 +234,31 @@ impl<'a> UserModel<'a> {
             let target_row = selected_row + (source_row - source_first_row);
             for (source_column, value) in data_row {
                 let target_column = selected_column + (source_column - source_first_column);
-                let old_link = self.model.get_cell_link(sheet, target_row, target_column)?;
-                if old_link == value.link {
-                    continue;
-                }
-                match &value.link {
-                    Some(link) => {
-                        self.model
-                            .set_cell_link(sheet, target_row, target_column, link.clone())?
+                // The links of the target area were removed (and recorded) when it
+                // was cleared, so as far as the history goes the cell has no link
+                // here: a link auto-created by the value just pasted is not part
+                // of the state to go back to.
+                let current_link = self.model.get_cell_link(sheet, target_row, target_column)?;
+                if current_link != value.link {
+                    match &value.link {
+                        Some(link) => {
+                            self.model
+                                .set_cell_link(sheet, target_row, target_column, link.clone())?
+                        }
+                        None => self
+                            .model
+                            .delete_cell_link(sheet, target_row, target_column)?,
                     }
-                    None => self
-                        .model
-                        .delete_cell_link(sheet, target_row, target_column)?,
                 }
-                diff_list.push(Diff::SetCellLink {
-                    sheet,
-                    row: target_row,
-                    column: target_column,
-                    old_value: Box::new(old_link),
-                    new_value: Box::new(value.link.clone()),
-                });
+                if value.link.is_some() {
+                    diff_list.push(Diff::SetCellLink {
+                        sheet,
+                        row: target_row,
+                        column: target_column,
+                        old_value: Box::new(None),
+                        new_value: Box::new(value.link.clone()),
+                    });
+                }
             }
         }
         if is_cut {
